@@ -10,4 +10,6 @@ INVARIANT PathSimple
 INVARIANT RefValid
 INVARIANT PickOK
 INVARIANT MutantsRejected
+INVARIANT PlaceNumbers
+INVARIANT PlaceValid
 CHECK_DEADLOCK FALSE
